@@ -276,14 +276,22 @@ func init() {
 // ---- the system under test ---------------------------------------------------------------------
 
 type sut struct {
-	worlds *ingest.MutableWorlds
+	worlds ingest.Worlds
 	lock   sync.RWMutex
 	svc    pb.B6Server
 	ev     api.Evaluator
 }
 
-func newSUT(base b6.World) *sut {
+// newSUT: mutable worlds, or (ro) the read-only worlds a b6 started with --read-only serves: every write to them
+// fails with "World is read-only" — also when the canary overlay of a MergedChange accepted it
+func newSUT(c *hx.Ctx, base b6.World, ro bool) *sut {
 	s := &sut{worlds: &ingest.MutableWorlds{Base: base}}
+	if ro {
+		s.worlds = ingest.ReadOnlyWorlds{Base: base}
+		c.Op("kind ro", "ro")
+	} else {
+		c.Op("kind rw", "rw")
+	}
 	s.svc = grpc.NewB6Service(s.worlds, api.Options{Cores: 1}, &s.lock)
 	s.ev = api.Evaluator{Worlds: s.worlds, FunctionSymbols: functions.Functions(), Adaptors: functions.Adaptors(), Lock: &s.lock}
 	return s
@@ -449,6 +457,7 @@ type gen struct {
 	r    *hx.Rand
 	keys []string
 	s    *sut
+	ro   bool
 }
 
 func (g *gen) exists(id b6.FeatureID) bool {
@@ -527,8 +536,29 @@ func openPath(f *feat) {
 	}
 }
 
+// elementFree: a change without any element (the only kind a read-only world "applies")
+func (g *gen) elementFree(depth int) *change {
+	r := g.r
+	switch r.Intn(4) {
+	case 0:
+		return &change{kind: "at"}
+	case 1:
+		return &change{kind: "rt"}
+	case 2:
+		return &change{kind: "af"}
+	}
+	c := &change{kind: "mg"}
+	for i := 0; i < r.Intn(3) && depth < 2; i++ {
+		c.subs = append(c.subs, g.elementFree(depth+1))
+	}
+	return c
+}
+
 func (g *gen) change(depth int) *change {
 	r := g.r
+	if g.ro && r.Chance(1, 5) {
+		return g.elementFree(depth)
+	}
 	k := r.Intn(10)
 	switch {
 	case k < 3:
@@ -625,7 +655,13 @@ func runCase(c *hx.Ctx) {
 	if len(have) >= 2 && r.Chance(1, 2) {
 		feats = append(feats, feat{id: wid(r.Intn(nPaths)), tags: g.tags(1), refs: []b6.FeatureID{pid(have[0]), pid(have[len(have)-1])}})
 	}
-	s := newSUT(buildBase(c, feats))
+	g.ro = r.Chance(1, 4)
+	if g.ro {
+		c.Note("kind:read-only")
+	} else {
+		c.Note("kind:mutable")
+	}
+	s := newSUT(c, buildBase(c, feats), g.ro)
 	g.s = s
 	nops := 2 + r.Intn(5)
 	failed, succeeded := false, false
@@ -682,7 +718,7 @@ func main() {
 // corpus: the DESIGN §7 witness (UI evaluator, add-tag on a missing feature) and its relatives.
 func corpus(c *hx.Ctx) {
 	feats := []feat{{id: pid(1), tags: [][2]string{{"a", "v1"}}}}
-	s := newSUT(buildBase(c, feats))
+	s := newSUT(c, buildBase(c, feats), false)
 	missing := &change{kind: "at", tags: []tagop{{id: pid(5), k: "a", v: "v2"}}}
 	s.send(c, missing, true)
 	s.send(c, missing, false)
@@ -694,5 +730,23 @@ func corpus(c *hx.Ctx) {
 		{kind: "af", feats: []feat{{id: wid(0), refs: []b6.FeatureID{pid(1), pid(6)}}}},
 	}}, false)
 	s.send(c, &change{kind: "af", feats: []feat{{id: pid(6)}, {id: wid(0), refs: []b6.FeatureID{pid(1), pid(6)}}, {id: pid(6), tags: [][2]string{{"a", "v7"}}}}}, false)
+	// read-only worlds: every kind of change alone and wrapped in merge-changes — the canary overlay accepts what
+	// the real world rejects, so the error can only come from the second loop of MergedChange.Apply
+	ro := newSUT(c, buildBase(c, feats), true)
+	one := []*change{
+		{kind: "at", tags: []tagop{{id: pid(1), k: "b", v: "v3"}}},
+		{kind: "rt", tags: []tagop{{id: pid(1), k: "a"}}},
+		{kind: "af", feats: []feat{{id: pid(6), tags: [][2]string{{"a", "v7"}}}}},
+	}
+	for _, ch := range one {
+		ro.send(c, ch, true)
+		ro.send(c, &change{kind: "mg", subs: []*change{ch}}, false)
+		ro.send(c, &change{kind: "mg", subs: []*change{{kind: "mg", subs: []*change{ch}}, {kind: "at"}}}, false)
+	}
+	ro.send(c, &change{kind: "mg", subs: []*change{
+		{kind: "at", tags: []tagop{{id: pid(1), k: "c", v: "v4"}}},
+		{kind: "at", tags: []tagop{{id: pid(1), k: "c", v: "v4"}}}}}, true) // merge-changes (map …) shell form
+	ro.send(c, &change{kind: "mg"}, false)
+	ro.send(c, &change{kind: "mg", subs: []*change{{kind: "at"}, {kind: "af"}}}, false)
 	c.NonTrivial()
 }
